@@ -2,9 +2,11 @@ package main
 
 import (
 	"bufio"
+
 	"encoding/json"
 	"flag"
 	"fmt"
+	clip "github.com/bolom009/go-clipper2"
 	"os"
 	"sort"
 )
@@ -17,7 +19,7 @@ type Emitter struct {
 	n     int
 	dist  map[string]int
 	// direct failures found by the harness itself (panics, non-success, byte diffs ...)
-	Direct []map[string]any
+	Direct     []map[string]any
 	nontrivial map[string]bool
 }
 
@@ -37,6 +39,10 @@ func NewEmitter(dir string) *Emitter {
 func (e *Emitter) Case(id string, line string, meta map[string]any) {
 	fmt.Fprintf(e.cases, "%s %s\n", id, line)
 	meta["id"] = id
+	// geometry the sweep discarded while producing the outputs of this case
+	if ev := takeDiscards(); len(ev) > 0 {
+		meta["split_discards"] = ev
+	}
 	b, _ := json.Marshal(meta)
 	e.meta.Write(b)
 	e.meta.WriteByte('\n')
@@ -47,7 +53,20 @@ func (e *Emitter) Count(key string) { e.dist[key]++ }
 
 func (e *Emitter) Nontrivial(key string) { e.nontrivial[key] = true }
 
-func (e *Emitter) Fail(m map[string]any) { e.Direct = append(e.Direct, m) }
+func (e *Emitter) Fail(m map[string]any) {
+	if ev := takeDiscards(); len(ev) > 0 {
+		m["split_discards"] = ev
+	}
+	e.Direct = append(e.Direct, m)
+}
+
+func takeDiscards() []map[string]any {
+	var out []map[string]any
+	for _, d := range clip.VerifTakeSplitDiscards() {
+		out = append(out, map[string]any{"tri": [][2]int64{{d.Ip.X, d.Ip.Y}, {d.A.X, d.A.Y}, {d.B.X, d.B.Y}}, "area1": d.Area1, "area2": d.Area2})
+	}
+	return out
+}
 
 func (e *Emitter) Close(dir string, extra map[string]any) {
 	e.cases.Flush()
